@@ -160,12 +160,25 @@ def It.isSingleArg (it : It) : Res Bool := do
     pure (c == '\x00')
   else pure false
 
-/-- `argsAsString(include_myself)` -/
+/-- `argsAsString(include_myself)` as pinned: `std::string remaining( mpArgV[ argi++])` also when
+    `argi == argc`, i.e. from the terminating null pointer of argv (for a `-c` element that is the
+    last word) -/
+def It.argsAsStringHead (it : It) (includeMyself : Bool) : Res Word := do
+  if !includeMyself then
+    let s ← it.isSingleArg
+    if !s then .throw .runtime_error else pure ()
+  let argi := if includeMyself then it.cur.argIndex.toNat else it.argIndex
+  let first ← getWord it.argv argi
+  pure (first ++ ((it.argv.drop (argi + 1)).map (fun w => ' ' :: w)).flatten)
+
+/-- `argsAsString(include_myself)` (after `fix:` "argsAsString( false) on the last argument …": nothing
+    follows ⇒ the empty string, `argv[ argc]` is not used) -/
 def It.argsAsString (it : It) (includeMyself : Bool) : Res Word := do
   if !includeMyself then
     let s ← it.isSingleArg
     if !s then .throw .runtime_error else pure ()
   let argi := if includeMyself then it.cur.argIndex.toNat else it.argIndex
+  if argi ≥ it.argc then pure [] else
   let first ← getWord it.argv argi
   pure (first ++ ((it.argv.drop (argi + 1)).map (fun w => ' ' :: w)).flatten)
 
